@@ -646,6 +646,8 @@ func Int2BV(a *Term, w int) *Term {
 
 // ----- arrays -----
 
+var selectDepth int
+
 func Select(a, i *Term) *Term {
 	if a.Sort.Kind != SArray || a.Sort.Idx != i.Sort {
 		panic(fmt.Sprintf("Select: array sort %s index %s", a.Sort, i.Sort))
@@ -670,17 +672,37 @@ func Select(a, i *Term) *Term {
 	if cur.Op == "constarr" {
 		return cur.Args[0]
 	}
+	if cur.Op == "ite" && selectDepth < 6 {
+		// read through a join: worthwhile when at least one side resolves to a stored value
+		selectDepth++
+		sa := Select(cur.Args[1], i)
+		sb := Select(cur.Args[2], i)
+		selectDepth--
+		if sa.Op != "select" || sb.Op != "select" {
+			return Ite(cur.Args[0], sa, sb)
+		}
+	}
 	return mk("select", a.Sort.Elem, cur, i)
 }
 
-// distinctOffsets recognises x+c1 vs x+c2 (c1 != c2) and x vs x+c.
+// knownAllocBases: symbolic allocation bases of the current verification condition. References allocated from
+// different bases are distinct (each later base lies above everything allocated from the earlier ones).
+var knownAllocBases = map[*Term]bool{}
+
+// distinctOffsets recognises x+c1 vs x+c2 (c1 != c2), x vs x+c, and fresh references from different allocation bases.
 func distinctOffsets(a, b *Term) bool {
 	if a.Sort.Kind != SInt {
 		return false
 	}
 	ba, ca := splitOffset(a)
 	bb, cb := splitOffset(b)
-	return ba == bb && ca.Cmp(cb) != 0
+	if ba == bb {
+		return ca.Cmp(cb) != 0
+	}
+	if ba != nil && bb != nil && knownAllocBases[ba] && knownAllocBases[bb] && ca.Sign() >= 0 && cb.Sign() >= 0 {
+		return true
+	}
+	return false
 }
 
 func splitOffset(a *Term) (*Term, *big.Int) {
